@@ -455,7 +455,7 @@ func (c *Ctx) havocEverything() {
 	sort.Strings(names)
 	c.St.Epoch = c.nextEpoch()
 	for _, n := range names {
-		if strings.HasPrefix(n, "glob$") {
+		if strings.HasPrefix(n, "glob$") || c.E.immutableHeap(n) {
 			continue
 		}
 		cur := c.St.Heap[n]
@@ -808,7 +808,7 @@ func (c *Ctx) havocEverythingExcept(keep []ModEntry, oldHeap map[string]Term, ol
 	c.St.Epoch = c.nextEpoch()
 	pred := inModPred(keep)
 	for _, n := range names {
-		if strings.HasPrefix(n, "glob$") {
+		if strings.HasPrefix(n, "glob$") || c.E.immutableHeap(n) {
 			continue
 		}
 		cur := c.St.Heap[n]
